@@ -15,6 +15,7 @@
 #define _GNU_SOURCE
 #include <stdint.h>
 #include <stdio.h>
+#include <locale.h>
 #include <stdlib.h>
 #include <string.h>
 #include <stdarg.h>
@@ -125,6 +126,8 @@ static int mc_known_enabled(const char *id) {
 }
 
 static void mc_init(int argc, char **argv, const char *driver) {
+    /* the process locale is an environment input: MC_LOCALE makes the driver call setlocale() the way an application (bin/eav does) would */
+    { const char *loc = getenv("MC_LOCALE"); if (loc && loc[0]) { if (!setlocale(LC_ALL, loc)) { fprintf(stderr, "harness error: setlocale(LC_ALL, \"%s\") failed\n", loc); exit(2); } } }
     mc_driver = driver;
     mc_t0 = mc_now();
     for (int i = 1; i < argc; i++) {
